@@ -67,11 +67,13 @@ Width(d) == IF d = 0 THEN 3 ELSE 2 * Width(d - 1)
 RECURSIVE T(_, _, _)
 T(mode, d, b) ==
     IF d = 0 THEN Pool(mode, b)
-    ELSE LET sub == T(mode, d - 1, b)
-             subR == T(mode, d - 1, b + Width(d - 1))
-         IN sub \cup {[op |-> "none"]}
+    \* TLCEval: turn the lazily represented unions into explicit sets (enumerating a
+    \* union of comprehensions is quadratic otherwise)
+    ELSE LET sub == TLCEval(T(mode, d - 1, b))
+             subR == TLCEval(T(mode, d - 1, b + Width(d - 1)))
+         IN TLCEval(sub \cup {[op |-> "none"]}
                 \cup {[op |-> o, t |-> x] : o \in Unary, x \in sub}
-                \cup {[op |-> "and", l |-> x, r |-> y] : x \in sub, y \in subR}
+                \cup {[op |-> "and", l |-> x, r |-> y] : x \in sub, y \in subR})
 
 Trees(w) ==
     CASE w = "trees_tiny" -> T("small", 1, 0)
@@ -149,9 +151,9 @@ SitesThorough(x) ==
                FeatsAll \ {"lo_optsome", "hi_cfgon", "cfgon", "optsome"}, 3)
 
 MC_TreeSet ==
-    CASE Which = "sites_quick" -> SitesQuick(0)
-      [] Which = "sites_thorough" -> SitesThorough(0)
-      [] OTHER -> Trees(Which)
+    TLCEval(CASE Which = "sites_quick" -> SitesQuick(0)
+              [] Which = "sites_thorough" -> SitesThorough(0)
+              [] OTHER -> Trees(Which))
 
 MC_KeyOrder ==
     IF Which \in {"sites_quick", "sites_thorough"} THEN MC_KeyOrderSites ELSE MC_KeyOrderTrees
